@@ -260,6 +260,18 @@ Definition fin_msg (st' : rstate) (f' : frame) (brk : bool) (i : nat) (eph : boo
       else (with_srcs (set_src (srcs st') i (fun _ => s3)) st', f', [], brk)
   end.
 
+(* SUBSCRIBE matches by prefix ("/a/" also lets "/a/b/" through).  Repaired: a topic that is not subscribed to by NAME
+   counts only as information (like the topics message: it can still announce a newer id), it is never stored *)
+Definition heard_topic (v : variant) (md : smode) (topic : str) : str :=
+  match v, md with
+  | Repaired, SubExplicit tm => if dhas topic tm then topic else []
+  | _, _ => topic
+  end.
+Lemma heard_topic_cases v md t : heard_topic v md t = t \/ heard_topic v md t = [].
+Proof. unfold heard_topic. destruct v; [auto|]. destruct md; auto. destruct (dhas t tm); auto. Qed.
+Lemma heard_topic_explicit tm t : heard_topic Repaired (SubExplicit tm) t <> [] -> dhas t tm = true /\ heard_topic Repaired (SubExplicit tm) t = t.
+Proof. unfold heard_topic. destruct (dhas t tm); [auto|intro H; contradiction H; reflexivity]. Qed.
+
 (* the body of the [while socks:] loop for the message at the head of source i's queue.
    Returns (state, frame, outputs, break) where break = "socks = None". *)
 Definition on_msg (v : variant) (st : rstate) (f : frame) (i : nat) (m : wmsg)
@@ -268,7 +280,7 @@ Definition on_msg (v : variant) (st : rstate) (f : frame) (i : nat) (m : wmsg)
   | None => (with_ctl Dead st, f, [ORaise 3], true)
   | Some s0 =>
       let eph := negb (sc_eph (cfg s0) =? 0) in
-      let topic := topic_of_wire (w_wtopic m) in
+      let topic := heard_topic v (sc_mode (cfg s0)) (topic_of_wire (w_wtopic m)) in
       let mid := w_mid m in
       let msg_bal := if eph then 0 else w_bal m in
       let f1 := if msg_bal =? 0 then f else
@@ -288,7 +300,7 @@ Definition on_msg (v : variant) (st : rstate) (f : frame) (i : nat) (m : wmsg)
            f1, [], false)
         else (with_srcs (set_src (srcs st) i (fun _ => s1)) st, f1, [], false)
       else
-        let sm := {| st_pay := w_pay m; st_mid := mid; st_src := i; st_topic := topic |} in
+        let sm := {| st_pay := w_pay m; st_mid := mid; st_src := i; st_topic := topic_of_wire (w_wtopic m) |} in
         let fin (st' : rstate) (f' : frame) (brk : bool) := fin_msg st' f' brk i eph (w_topics m) in
         if eph then
           match process_msg v s1 mid sm topic (w_topics m) (min_recv s1) with
